@@ -846,83 +846,86 @@ theorem inv_init (columns lines : Nat) (hc : 1 ≤ columns) (hl : 1 ≤ lines)
 
 /-! ### draw -/
 
+theorem linefeed_frame (u : Screen) :
+    (linefeed u).cursor.x = (if u.mode LNM then 0 else u.cursor.x) ∧ (linefeed u).columns = u.columns ∧
+    (linefeed u).lines = u.lines := by
+  unfold linefeed index
+  simp only
+  split <;> split <;> simp_all [cariageReturn, setCursorX, cursorDown, setCursorY, markAllDirty, markDirtyRange]
+
+theorem inv_wrapStage {s : Screen} (h : Inv s) (w : Nat) (hw : w = 1 ∨ w = 2) :
+    Inv (wrapStage s w) ∧ (wrapStage s w).cursor.x < (wrapStage s w).columns := by
+  have hcx := h.cx
+  have hcols := h.cols
+  unfold wrapStage
+  split
+  · rename_i he
+    have he' : s.cursor.x = s.columns := by simpa using he
+    split
+    · have hi := inv_linefeed (inv_cariageReturn (inv_markDirty h s.cursor.y h.cy))
+      refine ⟨hi, ?_⟩
+      obtain ⟨f1, f2, _⟩ := linefeed_frame (cariageReturn (markDirty s s.cursor.y))
+      rw [f1, f2]
+      show (if _ then 0 else 0) < s.columns
+      split <;> omega
+    · refine ⟨inv_setCursorX h _ (by omega), ?_⟩
+      show s.cursor.x - w < s.columns
+      rcases hw with hw | hw <;> omega
+  · rename_i he
+    have he' : s.cursor.x ≠ s.columns := by simpa using he
+    exact ⟨h, by omega⟩
+
+theorem inv_irmStage {s : Screen} (h : Inv s) (w : Nat) :
+    Inv (irmStage s w) ∧ (irmStage s w).cursor = s.cursor ∧ (irmStage s w).columns = s.columns := by
+  unfold irmStage
+  split
+  · exact ⟨inv_insertCharacters h _, rfl, rfl⟩
+  · exact ⟨h, rfl, rfl⟩
+
+theorem inv_putChar {s : Screen} (h : Inv s) (c w : Nat) (hx : s.cursor.x < s.columns) : Inv (putChar s c w) := by
+  unfold putChar
+  simp only
+  have h1 := inv_setCell h s.cursor.y s.cursor.x { data := [c], attr := s.cursor.attr } h.cy hx
+  have h2 : Inv (if (w == 2 && decide ((setCell s s.cursor.y s.cursor.x { data := [c], attr := s.cursor.attr }).cursor.x + 1 <
+        (setCell s s.cursor.y s.cursor.x { data := [c], attr := s.cursor.attr }).columns)) = true then
+      setCell (setCell s s.cursor.y s.cursor.x { data := [c], attr := s.cursor.attr })
+        (setCell s s.cursor.y s.cursor.x { data := [c], attr := s.cursor.attr }).cursor.y
+        ((setCell s s.cursor.y s.cursor.x { data := [c], attr := s.cursor.attr }).cursor.x + 1)
+        { data := [], attr := (setCell s s.cursor.y s.cursor.x { data := [c], attr := s.cursor.attr }).cursor.attr }
+      else setCell s s.cursor.y s.cursor.x { data := [c], attr := s.cursor.attr }) := by
+    split
+    · rename_i hc
+      simp only [Bool.and_eq_true, decide_eq_true_eq] at hc
+      exact inv_setCell h1 _ _ _ h1.cy hc.2
+    · exact h1
+  exact inv_setCursorX h2 _ (Nat.min_le_right _ _)
+
+theorem inv_combine (env : Env) {s : Screen} (h : Inv s) (c : Nat) : Inv (combine env s c) := by
+  unfold combine
+  split
+  · rename_i hx
+    have hcx := h.cx
+    exact inv_setCell h _ _ _ h.cy (by omega)
+  · split
+    · rename_i hy
+      have hcy := h.cy
+      have hcols := h.cols
+      exact inv_markDirty (inv_setCell h _ _ _ (by omega) (by omega)) _ (by
+        show s.cursor.y - 1 < s.lines
+        omega)
+    · exact h
+
 theorem inv_drawChar (env : Env) {s : Screen} (h : Inv s) (c : Nat) : Inv (drawChar env s c) := by
   unfold drawChar
   simp only
   split
   · rename_i hp
     have hw : env.W c = 1 ∨ env.W c = 2 := by simpa using hp
-    -- after the wrap / overwrite step the cursor column is inside the grid
-    have hA : ∃ a : Screen, a = (if (s.cursor.x == s.columns) = true then
-          (if s.mode DECAWM = true then linefeed (cariageReturn (markDirty s s.cursor.y))
-           else setCursorX s (s.cursor.x - env.W c))
-        else s) ∧ Inv a ∧ a.cursor.x < a.columns := by
-      refine ⟨_, rfl, ?_⟩
-      have hcx := h.cx
-      have hcols := h.cols
-      split
-      · rename_i he
-        have he' : s.cursor.x = s.columns := by simpa using he
-        split
-        · have hi := inv_linefeed (inv_cariageReturn (inv_markDirty h s.cursor.y h.cy))
-          refine ⟨hi, ?_⟩
-          have hx : (linefeed (cariageReturn (markDirty s s.cursor.y))).cursor.x = 0 := by
-            unfold linefeed index
-            simp only
-            split <;> split <;> rfl
-          have hcl : (linefeed (cariageReturn (markDirty s s.cursor.y))).columns = s.columns := by
-            unfold linefeed index
-            simp only
-            split <;> split <;> rfl
-          rw [hx, hcl]; omega
-        · refine ⟨inv_setCursorX h _ (by omega), ?_⟩
-          show s.cursor.x - env.W c < s.columns
-          rcases hw with hw | hw <;> omega
-      · rename_i he
-        have he' : s.cursor.x ≠ s.columns := by simpa using he
-        exact ⟨h, by omega⟩
-    obtain ⟨a, ha, hai, hax⟩ := hA
-    rw [← ha]
-    -- IRM
-    have hB : ∃ b : Screen, b = (if a.mode IRM = true then insertCharacters a (some (env.W c)) else a) ∧
-        Inv b ∧ b.cursor.x < b.columns := by
-      refine ⟨_, rfl, ?_⟩
-      split
-      · exact ⟨inv_insertCharacters hai _, hax⟩
-      · exact ⟨hai, hax⟩
-    obtain ⟨b, hb, hbi, hbx⟩ := hB
-    rw [← hb]
-    have h1 := inv_setCell hbi b.cursor.y b.cursor.x { data := [c], attr := b.cursor.attr } hbi.cy hbx
-    have h2 : ∃ d : Screen, d = (if (env.W c == 2 &&
-          decide ((setCell b b.cursor.y b.cursor.x { data := [c], attr := b.cursor.attr }).cursor.x + 1 <
-            (setCell b b.cursor.y b.cursor.x { data := [c], attr := b.cursor.attr }).columns)) = true then
-        setCell (setCell b b.cursor.y b.cursor.x { data := [c], attr := b.cursor.attr })
-          (setCell b b.cursor.y b.cursor.x { data := [c], attr := b.cursor.attr }).cursor.y
-          ((setCell b b.cursor.y b.cursor.x { data := [c], attr := b.cursor.attr }).cursor.x + 1)
-          { data := [], attr := (setCell b b.cursor.y b.cursor.x { data := [c], attr := b.cursor.attr }).cursor.attr }
-        else setCell b b.cursor.y b.cursor.x { data := [c], attr := b.cursor.attr }) ∧ Inv d := by
-      refine ⟨_, rfl, ?_⟩
-      split
-      · rename_i hc
-        simp only [Bool.and_eq_true, decide_eq_true_eq] at hc
-        exact inv_setCell h1 _ _ _ h1.cy hc.2
-      · exact h1
-    obtain ⟨d, hd, hdi⟩ := h2
-    rw [← hd]
-    exact inv_setCursorX hdi _ (Nat.min_le_right _ _)
+    obtain ⟨h1, hx1⟩ := inv_wrapStage h (env.W c) hw
+    obtain ⟨h2, hc2, hcol2⟩ := inv_irmStage h1 (env.W c)
+    exact inv_putChar h2 c (env.W c) (by rw [hc2, hcol2]; exact hx1)
   · split
-    · split
-      · rename_i hx
-        have hcx := h.cx
-        exact inv_setCell h _ _ _ h.cy (by omega)
-      · split
-        · rename_i hy
-          have hcy := h.cy
-          have hcols := h.cols
-          exact inv_markDirty (inv_setCell h _ _ _ (by omega) (by omega)) _ (by
-            show s.cursor.y - 1 < s.lines
-            omega)
-        · exact h
+    · exact inv_combine env h c
     · exact h
 
 theorem inv_foldl_drawChar (env : Env) (cs : List Nat) {s : Screen} (h : Inv s) :
